@@ -271,6 +271,34 @@ impl World {
         self.slots.len() - 1
     }
 
+    /// Add an operation that is not in the generic table.
+    pub fn add_op(&mut self, name: &str, op: Box<dyn DynOp>) -> usize {
+        let _g = alloc::MonGuard::new();
+        let (waker, ws) = new_waker();
+        let id = self.next_slot;
+        self.next_slot += 1;
+        self.slots.push(Slot {
+            id,
+            kind: Kind_::WriteAll,
+            op: Some(op),
+            waker,
+            ws,
+            wakes_at_poll: 0,
+            state: SlotState::Fresh,
+            user_data: 0,
+            submissions: 0,
+            blocked_on_space: false,
+            outcomes: Vec::new(),
+            items: 0,
+            dropped_in_flight: false,
+            drop_expected_cancel: false,
+            polls: 0,
+            drop_point: "",
+        });
+        self.trace.push(format!("new#{id}:{name}"));
+        self.slots.len() - 1
+    }
+
     /// Give slot `i` a brand-new waker (the old one must no longer be required).
     pub fn replace_waker(&mut self, i: usize) {
         let _g = alloc::MonGuard::new();
